@@ -3,7 +3,7 @@
    reference primitives of ONE database (Redis.dprim; `dhandle`): `run x c args d` is the final database and the
    result.  Every statement is for ALL databases d and ALL argument values; `c` is any authorized connection state. *)
 From Coq Require Import String.
-From GR Require Import Base BaseFacts Resp Handler Exec Conn Redis SugarFacts.
+From GR Require Import Base BaseFacts Resp Handler Exec Conn Redis SugarFacts SugarMore.
 Open Scope Z_scope.
 
 Section C12.
@@ -61,6 +61,31 @@ Section C12.
      Exists (fun kv => aget d (fst kv) <> None) m ->
        run (X x_MSETNX) c args d = (d, x_ok (int_msg 0))).
   Proof. use msetnx_spec. Qed.
+
+  (* MSET: every key holds the LAST value given for it, whatever it held before (any type); the reply is OK *)
+  Theorem C12_mset : forall (d : db) (pairs : list (bytes * bytes)), pairs <> [] ->
+    run (X x_MSET) c (flat_map (fun kv => [bulk (fst kv); bulk (snd kv)]) pairs) d =
+    (fold_left (fun dd kv => aset dd (fst kv) (VStr (snd kv))) (map_of_pairs pairs) d, x_ok ok_msg).
+  Proof. use mset_spec. Qed.
+
+  (* HMSET: the fields are set in the hash (created when the key is missing), last value per field; OK; a key of another
+     type: WRONGTYPE error and nothing stored *)
+  Theorem C12_hmset : forall (d : db) h (pairs : list (bytes * bytes)), pairs <> [] ->
+    run (X x_HMSET) c (bulk h :: flat_map (fun kv => [bulk (fst kv); bulk (snd kv)]) pairs) d =
+    match hash_of d h with
+    | Some hh => (aset d h (VHash (fold_left (fun m kv => aset m (fst kv) (snd kv)) (map_of_pairs pairs) hh)), x_ok ok_msg)
+    | None => (d, {| x_msg := None; x_err := x_err (x_of wrongtype) |})
+    end.
+  Proof. use hmset_spec. Qed.
+
+  (* HMGET: one reply element per requested field, in request order: its value, or nil (missing field or missing key) *)
+  Theorem C12_hmget : forall (d : db) h (fields : list bytes), fields <> [] ->
+    run (X x_HMGET) c (bulk h :: map bulk fields) d =
+    match hash_of d h with
+    | Some hh => (d, x_ok (RArr (map (fun f => match aget hh f with Some v => bulk v | None => nil_msg end) fields)))
+    | None => (d, {| x_msg := None; x_err := x_err (x_of wrongtype) |})
+    end.
+  Proof. use hmget_spec. Qed.
 
   (* MGET: one reply element per requested key, in request order, nil for a missing key *)
   Theorem C12_mget : forall d keys, keys <> [] -> all_strings_or_missing d keys ->
@@ -141,6 +166,9 @@ Print Assumptions C12_incrby.
 Print Assumptions C12_decrby.
 Print Assumptions C12_msetnx.
 Print Assumptions C12_mget.
+Print Assumptions C12_mset.
+Print Assumptions C12_hmset.
+Print Assumptions C12_hmget.
 Print Assumptions C12_strlen.
 Print Assumptions C12_append.
 Print Assumptions C12_hkeys_hvals_hlen.
